@@ -552,7 +552,7 @@ def random_case(rng: random.Random, tables) -> Case:
     elif bad == "arity2":
         uses[rng.randrange(len(uses))].args = [rng.choice(BANKS), rng.choice(BANKS)]
     elif bad == "nonstring":
-        uses[rng.randrange(len(uses))].args = [(rng.choice(["1", "2.5", "True", "None"]),)]
+        uses[rng.randrange(len(uses))].args = [(rng.choice(["1", "2.5", "True"]),)]
     elif bad == "nonstring-expr":
         uses[rng.randrange(len(uses))].args = [(rng.choice(["'a' + 'b'", "e", "('x',)"]),)]
     pos = "tuple"
